@@ -103,7 +103,7 @@ def prune_cache():
     keep = src_hash()
     entries = [e for e in os.listdir(BUILD) if e != keep and os.path.isdir(os.path.join(BUILD, e))]
     entries.sort(key=lambda e: os.path.getmtime(os.path.join(BUILD, e)))
-    for e in entries[:-1]:  # keep the most recent other tree (e.g. a mutant under test) besides the current one
+    for e in entries[:-int(os.environ.get('VERIF_CACHE_KEEP', '4'))]:  # keep a few recent other trees (mutants under test)
         shutil.rmtree(os.path.join(BUILD, e), ignore_errors=True)
 
 
@@ -225,10 +225,14 @@ def run_worker(binary, args, timeout=int(os.environ.get('VERIF_WORKER_TIMEOUT', 
         return -9, (e.stdout or b'').decode(errors='replace') if isinstance(e.stdout, bytes) else (e.stdout or ''), 'TIMEOUT'
 
 
-def parse_output(stdout, stderr, prop):
+def parse_output(stdout, stderr, prop, rc=0):
     """-> (records, stats or None, crash record or None)"""
     recs, stats, crash = [], None, None
+    last_started = -1
     for line in stdout.splitlines():
+        if line.startswith('S '):
+            last_started = int(line[2:])
+            continue
         m = R_LINE.match(line)
         if m:
             d = parse_fields(m.group(3))
@@ -254,6 +258,12 @@ def parse_output(stdout, stderr, prop):
                 stats = json.loads(line[6:])
             except ValueError:
                 pass
+    if crash is None and stats is None and rc == 77:
+        # a sanitizer runtime ended the process without going through our report callback (UBSan)
+        m = re.search(r'runtime error: ([^\n]*)', stderr or '')
+        msg = re.sub(r'0x[0-9a-f]+', 'ADDR', m.group(1)) if m else 'sanitizer exit'
+        crash = {'run': last_started, 'step': '?', 'op': '?', 'props': 'C02,' + prop, 'class': 'crash:ubsan',
+                 'key': msg[:160], 'status': 'viol'}
     return recs, stats, crash
 
 
@@ -278,7 +288,7 @@ def run_chunk(job):
             cp = '%s.%d' % (cases_path, cur)
             args += ['--cases', cp]
         rc, so, se = run_worker(binary, args)
-        recs, stats, crash = parse_output(so, se, prop)
+        recs, stats, crash = parse_output(so, se, prop, rc)
         out['records'] += recs
         if stats:
             out['stats'].append(stats)
@@ -309,7 +319,7 @@ def exec_plan(binary, prop, plan_lines, env, env2, avoid, known):
         if known:
             args += ['--known', ','.join(known)]
         rc, so, se = run_worker(binary, args, timeout=120)
-        recs, _, crash = parse_output(so, se, prop)
+        recs, _, crash = parse_output(so, se, prop, rc)
         if crash:
             return crash
         if recs:
@@ -432,7 +442,7 @@ def gate(prop, cfg, flavour, binary, seed, rec, thorough, avoid, known, tier):
     # 2. minimise
     small, tries = minimise(binary, prop, plan, envs[0], envs[1], avoid, known, sig)
     # 3. write + final replay
-    rdir = os.path.join(ROOT, 'replays')
+    rdir = os.environ.get('VERIF_REPLAY_DIR', os.path.join(ROOT, 'replays'))
     os.makedirs(rdir, exist_ok=True)
     path = os.path.join(rdir, '%s-%s-%s-%d-%d.json' % (prop, cfg['name'], flavour, seed, rec['run']))
     final = exec_plan(binary, prop, small, envs[0], envs[1], avoid, known)
@@ -508,7 +518,7 @@ def check(prop, tier):
     for (c, f) in pairs:
         path, diag = built[(c['name'], f)]
         if path is None:
-            rdir = os.path.join(ROOT, 'replays')
+            rdir = os.environ.get('VERIF_REPLAY_DIR', os.path.join(ROOT, 'replays'))
             os.makedirs(rdir, exist_ok=True)
             rp = os.path.join(rdir, '%s-%s-%s-build.json' % (prop, c['name'], f))
             json.dump({'kind': 'build-gate', 'property': prop, 'config': c, 'flavour': f, 'diagnostic': diag},
@@ -692,10 +702,11 @@ def write_evidence(prop, tier, seed, wall, t_build, agg, distinct, cfgs, pairs, 
                            'sampling, not enumeration: a clean batch is evidence, not proof',
                            'value types and source iterators never throw'],
            'wall_s': round(wall, 2), 'violations': len(violations)}
-    os.makedirs(os.path.join(ROOT, 'evidence'), exist_ok=True)
-    tmp = os.path.join(ROOT, 'evidence', '%s.json.tmp' % prop)
+    edir = os.environ.get('VERIF_EVIDENCE_DIR', os.path.join(ROOT, 'evidence'))
+    os.makedirs(edir, exist_ok=True)
+    tmp = os.path.join(edir, '%s.json.tmp' % prop)
     json.dump(doc, open(tmp, 'w'), indent=1)
-    os.replace(tmp, os.path.join(ROOT, 'evidence', '%s.json' % prop))
+    os.replace(tmp, os.path.join(edir, '%s.json' % prop))
 
 
 # ------------------------------------------------------------------------------------------------
